@@ -172,6 +172,15 @@ CHECKS = {
    note="Trusted: TLC, the program->Library builder. References are instances of the same layout; orthogonal alignment.",
    tech="TLA+ placement spec, TLC exhaustive over programs and interleavings; S->I replay; I->S trace validation"),
 }
+CHECKS["C08"] = dict(cat="model_checking", ref="§6 C08",
+   text="Tracks.tla is the one-track state machine (segments tiling [0,span]; Cut/Block/SetNet with bounds, conflict and overlap "
+        "errors; invariant Tiling, action properties CutEffect and FailureIsNoop); TLC enumerates every sequence of 3-4 operations "
+        "on wire and rail tracks and each is replayed on tracks::Track, state compared after every operation. TetrisCompile.tla "
+        "specifies the compiled cell (period instantiation with offset/overlap/flip, crossing centres, removed intervals, wire "
+        "pieces, nets, vias, WellFormed); MC_TetrisCompile enumerates 15 stacks x outlines x cut/assignment/instance features and "
+        "Library::to_raw must yield exactly the specified rectangles, or an error where no tiling exists.",
+   note="Trusted: TLC, the case->Library builder, rectangle canonicalisation. Even cut/via/track widths; rectangular outlines.",
+   tech="TLA+ track state machine and compile spec, TLC exhaustive; S->I replay with per-step state comparison")
 
 PENDING = {}
 
